@@ -321,4 +321,57 @@ Proof.
   apply incr_above_forall in A. rewrite Forall_forall in *. intros r Hr.
   specialize (A r Hr). specialize (B r Hr). cbn in B. lia.
 Qed.
+
+(* ---------- several response bodies in one call ---------- *)
+
+(* the reports made for a body depend on that body alone: not on the bodies read before it in the
+   same call (redirect pages drained by the http client, the body of an attempt that is retried),
+   nor on those read after it *)
+Theorem body_reports_independent interval pre post pre' post' b :
+  nth (length pre) (run_bodies interval (pre ++ b :: post)) [] =
+  nth (length pre') (run_bodies interval (pre' ++ b :: post')) [].
+Proof.
+  unfold run_bodies. rewrite !map_app. cbn [map].
+  rewrite <- (map_length (fun b0 : body_run => run_reader interval (r0 (fst b0)) (snd b0)) pre) at 1.
+  rewrite <- (map_length (fun b0 : body_run => run_reader interval (r0 (fst b0)) (snd b0)) pre') at 1.
+  now rewrite !nth_middle.
+Qed.
+
+Theorem body_reports_are_own interval pre post b :
+  nth (length pre) (run_bodies interval (pre ++ b :: post)) [] = run_reader interval (r0 (fst b)) (snd b).
+Proof.
+  unfold run_bodies. rewrite map_app. cbn [map].
+  rewrite <- (map_length (fun b0 : body_run => run_reader interval (r0 (fst b0)) (snd b0)) pre) at 1.
+  now rewrite nth_middle.
+Qed.
+
+(* what the caller is told concerns the saved body only, whatever was drained before it *)
+Theorem call_reports_last interval pre b :
+  call_reports interval (pre ++ [b]) = run_reader interval (r0 (fst b)) (snd b).
+Proof. unfold call_reports, run_bodies. rewrite map_app. cbn [map]. apply last_last. Qed.
+
+Theorem call_progress_truthful interval pre t0 evs :
+  let rs := call_reports interval (pre ++ [(t0, evs)]) in
+  incr_above 0 rs /\ Forall (fun r => r <= read_total evs) rs /\
+  (forall evs' n now, evs = evs' ++ [(n, true, now)] -> 0 < read_total evs ->
+     exists p, rs = p ++ [read_total evs]).
+Proof.
+  cbn zeta. rewrite call_reports_last. cbn [fst snd].
+  destruct (reader_reports interval evs (r0 t0)) as (A & B); [cbn; lia|].
+  split; [exact A|]. split; [exact B|].
+  intros evs' n now E P. subst evs. now apply download_progress_final.
+Qed.
+
+(* one shared callbackReader for the whole call (its ReadCloser swapped per body) is NOT truthful:
+   the second body's reports start at the first body's size *)
+Theorem shared_counter_refuted :
+  exists interval bodies,
+    let own := nth 1 bodies (0, []) in
+    nth 1 (run_bodies_shared interval (r0 0) bodies) [] = [250] /\
+    read_total (snd own) = 100 /\
+    nth 1 (run_bodies interval bodies) [] = [100].
+Proof.
+  exists 0, [(0, [(150, false, 0); (0, true, 0)]); (0, [(100, false, 0); (0, true, 0)])].
+  cbn zeta. repeat split; vm_compute; reflexivity.
+Qed.
 Close Scope Z_scope.
